@@ -39,7 +39,12 @@ theorem upsertList_retains (now : Int) (c : Contact) (b : List Contact) {x : Con
       rw [List.mem_append]; left; exact hxf
 
 theorem unexpiredAt_abs (now : Int) (c : Contact) : unexpiredAt now (abs c) = live now c := by
-  simp [unexpiredAt, abs, live, expired]
+  simp only [unexpiredAt, abs, live, expired]
+  by_cases h : now < c.exp
+  · have : ¬ (now ≥ c.exp) := by omega
+    simp [h, this]
+  · have : now ≥ c.exp := by omega
+    simp [h, this]
 
 theorem filter_map_abs (now : Int) (b : List Contact) :
     (b.map abs).filter (unexpiredAt now) = (b.filter (live now)).map abs := by
